@@ -47,8 +47,8 @@ type c06DB struct {
 	inTx      bool
 	openTx    int
 
-	stmts  int // statements issued so far (Prepare, Exec, Query each count)
-	failAt int // the failAt-th statement fails; -1: none
+	stmts   int // statements issued so far (Prepare, Exec, Query each count)
+	failAt  int // the failAt-th statement fails; -1: none
 	faulted bool
 }
 
@@ -306,6 +306,9 @@ func VerifC06Step() {
 		(phase == enum.FencePhaseRollback && (!before.present || before.status == byte(enum.StatusRollbacked) || before.status == byte(enum.StatusSuspended)))
 	if noop {
 		vrt.Reach("step/noop-delivery")
+		if err != nil {
+			vrt.Observe("noop.err", err.Error())
+		}
 		vrt.Assert(err == nil, "step/noop-delivery-answers-ok/"+tag)
 		if !before.present {
 			vrt.Assert(post.present && post.status == byte(enum.StatusSuspended), "step/rollback-before-try-records-suspension/"+tag)
